@@ -476,6 +476,73 @@ def prop_hub(case):
     return Obs(True, ['fanout>255' if case['fanout'] < 65536 else 'fanout>65535'], checks=3 * case['fanout'])
 
 
+BENCH_BASES = {     # statements, indices of the output declarations, indices of the gates
+    'A': (['input(a)', 'input(b)', 'output(q)', 'output(o)', 'output(r)', 'n1=and(a,b)', 'n2=not(n1)', 'o=buf(n2)', 'q=not(o)', 'r=xor(n1,b)'], (2, 3, 4), (5, 6, 7, 8, 9)),
+    'B': (['input(a, b)', 'output(q)', 'output(o)', 'n1=and(a,b)', 'n2=not(n1)', 'o=buf(n2)', 'q=not(o)'], (1, 2), (3, 4, 5, 6)),
+    'C': (['input(a)', 'input(b)', 'output(r)', 'output(o)', 'n1=and(a,b)', 'o=not(n1)', 'n3=buf(o)', 'r=xor(n3,b)'], (2, 3), (4, 5, 6, 7)),
+}
+BENCH_FN = {'q': lambda a, b: a & b, 'o': lambda a, b: 1 - (a & b), 'r': lambda a, b: (a & b) ^ b}
+BENCH_FN_C = {'o': lambda a, b: 1 - (a & b), 'r': lambda a, b: (1 - (a & b)) ^ b}
+
+
+def enum_benchports(tier):
+    """statement orders of small bench netlists whose ports are forks: declarations before, between and after the gates (the order decides
+    which fork or gate owns the highest node index while forks are eliminated; a port read by exactly one gate is itself a 1:1 fork)
+    x {elim, copy + elim, pickle + elim, elim twice}. Bases B and C: every order; base A: a pseudo-random sample."""
+    import itertools
+    k = 0
+    for base in ('B', 'C'):
+        n = len(BENCH_BASES[base][0])
+        for order in itertools.permutations(range(n)):
+            k += 1
+            if tier == 'quick' and base == 'C' and k % 8:
+                continue
+            yield dict(base=base, order=list(order), how=['elim', 'copy', 'pickle', 'twice'][(k // 3) % 4])
+    n = len(BENCH_BASES['A'][0])
+    x = 0x2545f491
+    count = 150 if tier == 'quick' else 6000
+    seen = set()
+    while len(seen) < count:
+        order = list(range(n))
+        for i in range(n - 1, 0, -1):
+            x = (x * 6364136223846793005 + 1442695040888963407) % (1 << 64)
+            j = (x >> 33) % (i + 1)
+            order[i], order[j] = order[j], order[i]
+        if tuple(order) not in seen:
+            seen.add(tuple(order))
+            yield dict(base='A', order=order, how=['elim', 'copy', 'pickle', 'twice'][len(seen) % 4])
+
+
+def prop_benchports(case):
+    from kyupy import bench
+    stmts, decl, gates = BENCH_BASES[case['base']]
+    fns = BENCH_FN_C if case['base'] == 'C' else BENCH_FN
+    text = '\n'.join(stmts[i] for i in case['order']) + '\n'
+    c = bench.parse(text)
+    names = [n.name for n in c.io_nodes]
+    combos = [(a, b) for a in (0, 1) for b in (0, 1)]
+    outs = [nm for nm in names if nm in fns]
+    want = {('o', nm): [3 * fns[nm](a, b) for a, b in combos] for nm in outs}
+    if sim_table(c, ['a', 'b'], [], outs, combos) != want:
+        return Obs(False, ['parsed_netlist_differs'])        # the parser is C11's subject; nothing to compare against here
+    c2 = c.copy() if case['how'] == 'copy' else pickle.loads(pickle.dumps(c)) if case['how'] == 'pickle' else c
+    nn = len(c2.nodes)
+    c2.eliminate_1to1_forks()
+    if case['how'] == 'twice':
+        c2.eliminate_1to1_forks()
+    what = f'eliminate_1to1_forks ({case["how"]}) of\n{text}'
+    structural(c2, what)
+    if [n.name for n in c2.io_nodes] != names:
+        raise Violation(f'{what}: ports {[n.name for n in c2.io_nodes]}, before {names}')
+    for n in c2.io_nodes:
+        if not (0 <= n.index < len(c2.nodes)) or c2.nodes[n.index] is not n:
+            raise Violation(f'{what}: port {n.name} is no longer a node of the circuit')
+    got = sim_table(c2, ['a', 'b'], [], outs, combos)
+    if got != want:
+        raise Violation(f'{what}: outputs {got}, the netlist computes {want}')
+    return Obs(len(c2.nodes) < nn, ['declarations_after_gates' if max(case['order'].index(k) for k in decl) > min(case['order'].index(k) for k in gates) else 'declarations_first', case['how'], 'base_' + case['base']], checks=3)
+
+
 HAND = {   # hand-wired implementations of vk/props/c09.py: (constructor, variant, number of inputs, function per output port in port order)
     'hand1': ('handmade_impl', None, 2, [lambda a, b: 1 - (a & b), lambda a, b: 1 - (a & b)]),
     'hand2': ('handmade_impl2', None, 2, [lambda a, b: 1 - (a | b), lambda a, b: a | b, lambda a, b: 1 - (a | b)]),
@@ -547,7 +614,8 @@ def prop_hand(case):
     return Obs(len(outs) < len(fns) or case['how'] != 'asis', [case['impl'], case['how']], checks=len(outs) * npat)
 
 
-PARTS = [Part('hand', prop_hand, enumerate=enum_hand, quick=(2, 0), thorough=(2, 0)),
+PARTS = [Part('benchports', prop_benchports, enumerate=enum_benchports, quick=(8, 0), thorough=(16, 0)),
+         Part('hand', prop_hand, enumerate=enum_hand, quick=(2, 0), thorough=(2, 0)),
          Part('hub', prop_hub, enumerate=enum_hub, quick=(2, 0), thorough=(4, 0)),
          Part('cells', prop_cells, enumerate=enum_cells, quick=(8, 0), thorough=(16, 0)),
          Part('hier', prop_hier, strategy=hier_cases, quick=(8, 400), thorough=(16, 12000))]
